@@ -25,11 +25,16 @@ RULE = ('Histories of <=25 operations on a real AppCfgMgr over a temporary '
         'coexisted under apps/, or a synchronisation ran while a cleanup link '
         'was outstanding. distinct = canonical JSON of the case.')
 ASSUMPTIONS = [
-    'treadmill.appcfg.configure.configure is replaced by a stand-in (entry '
-    'points are absent): container name from the real '
-    'appcfg.eventfile_unique_name, creates apps/<container>/data, returns '
-    'None for a vanished event file, raises for manifests marked '
-    'unconfigurable',
+    'treadmill.appcfg.configure.configure is replaced by a stand-in (the '
+    'runtime class hook, features and supervisor.create_service need entry '
+    'points / s6): it runs the REAL appcfg.manifest.load on the cache file '
+    '(a valid scheduled manifest + placement data; 1 in 2 carries keys of a '
+    'runtime manifest - uniqueid, name/app of another instance, or a whole '
+    'app.json-like dump), names the container '
+    'appcfg.app_unique_name(utils.to_obj(manifest)) as configure() does, '
+    'creates apps/<container>/data, returns None for a vanished event file; '
+    'unconfigurable manifests have an invalid environment (load raises) or '
+    'raise ContainerSetupError',
     'the os.stat seen by appcfg.gen_uniqueid is virtualised: inode and ctime '
     'come from a model file system stored in the case (inode numbers handed '
     'out in sequence and reused - most recently freed first - when the put '
@@ -47,7 +52,7 @@ ASSUMPTIONS = [
     'another container is not generated',
 ]
 TRUSTED = ['pbt/c13sim.py']
-BUDGET = {'quick': 3200, 'thorough': 192000}
+BUDGET = {'quick': 2400, 'thorough': 192000}
 
 # 'killed' (no flag file at all) is kept out of the first three: 'exit' takes
 # KINDS[:3] + killed, 'finish' any
@@ -63,9 +68,15 @@ DT_US = [7, 61, 443, 2909, 7919, 40009, 250007, 999983,
          128000311, 128070001, 256001013, 384499979]
 
 
+# keys of the runtime manifest carried by the cached one: 0 none, 1 uniqueid,
+# 2 name/app of another instance, 3 a whole app.json-like dump
+EXTRA = [0, 0, 0, 1, 1, 2, 3]
+
+
 def _identity(draw):
-    """[reuse the inode freed last?, ctime distance in us]"""
-    return [draw(st.sampled_from([1, 1, 0])), draw(st.sampled_from(DT_US))]
+    """[reuse the inode freed last?, ctime distance in us, extra keys]"""
+    return [draw(st.sampled_from([1, 1, 0])), draw(st.sampled_from(DT_US)),
+            draw(st.sampled_from(EXTRA))]
 
 
 def _weighted(draw, choices):
@@ -97,7 +108,7 @@ def _case(draw):
     if opening == 5:
         # the synchronisation configures X, its created event is still queued
         # when the container dies
-        ops += [['ready', 1], ['put', 0, 1], ['deliver', 1],
+        ops += [['ready', 1], ['put', 0, 1] + _identity(draw), ['deliver', 1],
                 ['finish', 0, draw(st.sampled_from(KINDS))]]
         cached.add(0)
         placed.add(0)
@@ -105,7 +116,8 @@ def _case(draw):
         pending = 1
         handed = 1
     elif opening:
-        ops += [['put', 0, 1], ['ready', 1], ['deliver', 99]]
+        ops += [['put', 0, 1] + _identity(draw), ['ready', 1],
+                ['deliver', 99]]
         cached.add(0)
         placed.add(0)
         ready = active = True
@@ -267,6 +279,16 @@ def fixed_cases():
         ('replace-same-inode-128s-later-both-queued', {'salt': 0,
                                                        'ops': running + [
             ['del', 0], ['put', 0, 1, 1, 128000311], ['deliver', 99]]}),
+        # the cached manifest carries keys of a runtime manifest (scheduled
+        # from an app.json dump): running, resynchronised, finished, again
+        ('manifest-with-uniqueid-resync', {'salt': 0, 'ops': [
+            ['put', 0, 1, 0, 443, 1]] + ready + resync + [
+                ['finish', 0, 'exitinfo']] + resync}),
+        ('manifest-dump-restart-evict', {'salt': 1, 'ops': [
+            ['put', 0, 1, 0, 443, 3], ['put', 1, 1, 0, 61, 2]] + ready + [
+                ['restart'], ['ready', 1], ['deliver', 99], ['del', 0],
+                ['deliver', 99], ['put', 0, 1, 1, 7, 1], ['deliver', 99]]
+         + resync}),
         # the same with a container that was killed: no flag file at all
         ('late-created-event-after-flagless-death', {'salt': 0, 'ops': [
             ['ready', 1], ['put', 0, 1], ['deliver', 1],
